@@ -11,8 +11,11 @@ import (
 )
 
 func init() {
-	props["C13"] = c13
-	floors["C13"] = map[string]int{"C13.R1": 40, "C13.R2": 12, "C13.R3": 5, "C13.R4": 8, "C13.R5": 8, "C13.R6": 16}
+	props["C13"] = func(r *Report) {
+		c13(r)
+		r.Guard("C13.R7", "every lock taken is released on every exit: MultiError and container locks", func() { lockPairRule(r, "", "verify", "fifo", "filter", "martianhttp") })
+	}
+	floors["C13"] = map[string]int{"C13.R1": 40, "C13.R2": 12, "C13.R3": 5, "C13.R4": 8, "C13.R5": 8, "C13.R6": 16, "C13.R7": 1}
 }
 
 // moduleStructs lists the named struct types declared in module packages.
